@@ -740,7 +740,7 @@ pub fn run(ctx: &Ctx) -> i32 {
     run_reveals(ctx);
     ctx.finish(
         "model_checking",
-        "(a) BVH: all sequences of length 0..L over an 8-box alphabet on the {0..3}^3 grid (flat, point, two boxes with identical centres; L=4 quick / 5 thorough) x leaf size {1,2,3,30} x 88 rays (incl. directions with -0.0 components), n copies of one element, collinear centres, centres coinciding on the split axis, prefixes of a 216-box lattice, shade sets through BVH<&Occluder>; each build runs in a supervised worker process (watchdog, 4 GiB) and BVH.intersects(r).is_some() is compared with testing every obstacle; AABB::intersects itself against an f64 slab test for 48 boxes x 88 rays, and BVH over plain polygons (no box pre-check on the element side) against the one-by-one polygon test; (b) all simple polygons (general position) with 3..4 vertices on the 4x4 grid (+5-gons 4x4 and 6-gons 3x3 in thorough, 5-gons 3x3 in quick) x poses (tilt{0,30,90,135,180} x az{0,45,90,-120,180} x 2 positions) x 64 quarter-lattice targets x 3 directions x {front-towards, front-away, behind-towards, parallel} against exact integer point-in-polygon (targets on the outline skipped) + AABB containment; (c) reveal quads for setback{.05,.2,1} x 3 window rects x 6 tilts x 5 azimuths x 2 positions against the wall's own transform; non-trivial = non-empty obstacle set / polygon with at least one expected hit / 4 reveal quads generated",
+        "(a) BVH: all sequences of length 0..L over an 8-box alphabet on the {0..3}^3 grid (flat, point, two boxes with identical centres; L=4 quick / 5 thorough) x leaf size {1,2,3,30} x 88 rays (incl. directions with -0.0 components), n copies of one element, collinear centres, centres coinciding on the split axis, prefixes of a 216-box lattice, shade sets through BVH<&Occluder>; each build runs in a supervised worker process (watchdog, 4 GiB) and BVH.intersects(r).is_some() is compared with testing every obstacle; AABB::intersects itself against an f64 slab test for 48 boxes x 88 rays, and BVH over plain polygons (no box pre-check on the element side) against the one-by-one polygon test; 2..40 complementary triangles of one rectangle (identical boxes, different polygons, all centres coinciding) x leaf size {1,2,30} x an 80-ray grid over the rectangle; (b) all simple polygons (general position) with 3..4 vertices on the 4x4 grid (+5-gons 4x4 and 6-gons 3x3 in thorough, 5-gons 3x3 in quick) x poses (tilt{0,30,90,135,180} x az{0,45,90,-120,180} x 2 positions) x 64 quarter-lattice targets x 3 directions x {front-towards, front-away, behind-towards, parallel} against exact integer point-in-polygon (targets on the outline skipped) + AABB containment; (c) reveal quads for setback{.05,.2,1} x 3 window rects x 6 tilts x 5 azimuths x 2 positions against the wall's own transform; non-trivial = non-empty obstacle set / polygon with at least one expected hit / 4 reveal quads generated",
         true,
         json!({}),
     )
